@@ -293,6 +293,7 @@ func factsC08(r *Repo) []Fact {
 	}
 	out = append(out, c08EOFByIdentity(sp))
 	out = append(out, factsC08Late(r)...) // c08_late.go: mergeTakes, mergeChildViaToStream, mergeArrayFromIndex, childRecvIsOwnPeek
+	out = append(out, factsC08Wide(r)...) // c08_wide.go: reflectDisablesChosenIndex, chosenRemovedByValue, itemsCasesPerSource
 	return out
 }
 
